@@ -88,6 +88,21 @@ class World:
                 err = "ValueError"
         elif op == "edit":
             self.tobj[ev["o"]].points[...] = self.targets[ev["v"]]
+        elif op == "pinv":
+            al = self.als[ev["a"] - 1]
+            inv = al.pseudoinverse()
+            if type(inv) is not type(al):
+                return "pseudoinverse changed the class to " + type(inv).__name__
+            if not (L.close(inv.source.points, al.target.points, 1e-12) and L.close(inv.target.points, al.source.points, 1e-12)):
+                return "pseudoinverse does not have source and target exchanged"
+            pts = self.src_pts
+            if getattr(al, "has_true_inverse", False):
+                img = al.apply(pts)
+                if not L.close(inv.apply(img), pts, 1e-8):
+                    return "pseudoinverse does not undo the current fit (stale inverse?)"
+            else:
+                if not np.allclose(inv.apply(al.target.points), al.source.points, atol=1e-8 * self.diam):
+                    return "pseudoinverse of the warp does not send target landmarks back onto source landmarks"
         elif op == "copy":
             self.als.append(self.als[ev["a"] - 1].copy())
             self.src_objs.append(self.src_objs[ev["a"] - 1])
